@@ -242,15 +242,16 @@ def monitor(stream, case, out):
             continue
         want = reference_output(ref)
         if want is not None and want != "bad-op" and o != want:
-            bad.append("[repro] step %d '%s'%s after the %d build(s) made before it in this process gives %s ; the same step run "
-                       "ALONE in a fresh process gives %s" % (k, l, "" if kind == "build" else " (= '%s')" % ref, nb, o[:170], want[:170]))
+            bad.append("[repro] a service client graph behaves differently after the builds made before it in this process than "
+                       "ALONE in a fresh process: step %d '%s'%s after %d build(s) gives %s ; alone it gives %s"
+                       % (k, l, "" if kind == "build" else " (= '%s')" % ref, nb, o[:170], want[:170]))
         if o.startswith("err:"):
             bad.append("[proto] step %d '%s' printed %s" % (k, l, o))
         else:
             cyc, pubs = parse_out(o)
             msg = timing(b, cyc, pubs)
             if msg:
-                bad.append("[timing] step %d '%s': %s" % (k, l, msg))
+                bad.append("[timing] a service client graph does not have the timing of its own hand-off mode: step %d '%s': %s" % (k, l, msg))
         if kind == "build":
             nb += 1
     return bad[:3]
